@@ -18,7 +18,7 @@ func vDocText() []byte {
 		return doc
 	}
 	if fam == 0 {
-		n := zzverif.IntRange("len", 0, zzverif.Bound("N", 4, 6))
+		n := zzverif.IntRange("len", 0, zzverif.Bound("N", 4, 5))
 		return zzverif.Bytes("text", n)
 	}
 	d := zzverif.IntRange("doc", 0, len(vCorpus)-1)
